@@ -177,6 +177,14 @@ func freshTarget(p *Prog, d decodeSite) (bool, string) {
 // isNulFrame: v is append(<marshal bytes>, 0): exactly one appended element, the constant 0.
 // Returns the value holding the marshal bytes.
 func nulFrameBase(v ssa.Value) (ssa.Value, string) {
+	// a named slice type for frames (`type frame []byte`) is the same bytes
+	for i := 0; i < 4; i++ {
+		if ct, ok := v.(*ssa.ChangeType); ok {
+			v = ct.X
+			continue
+		}
+		break
+	}
 	c, ok := v.(*ssa.Call)
 	if !ok {
 		return nil, "the written slice is not the result of append(bytes, 0)"
@@ -221,6 +229,9 @@ func nulFrameBase(v ssa.Value) (ssa.Value, string) {
 func marshalOrigin(p *Prog, v ssa.Value, depth int) ([]*ssa.Call, string) {
 	if depth > 4 {
 		return nil, "too deep"
+	}
+	if ct, ok := v.(*ssa.ChangeType); ok {
+		return marshalOrigin(p, ct.X, depth)
 	}
 	switch x := v.(type) {
 	case *ssa.Extract:
